@@ -149,8 +149,33 @@ def check(ctx):
             dedupe = any(a[0] == "cmp" and a[1] == "in" and a[2] == nd
                          for t, _, cond in lp["calls"] for a, p in cond)
             ok = has_in and has_var and dedupe
+            # exact guards: a node is expanded / recorded iff not yet recorded; its variable
+            # iff it has one that is not yet recorded; the two records are what is returned
+            apps = [(t, [(a, p) for a, p in cond if a[0] != "inloop"])
+                    for t, _, cond in lp["calls"] if t[1][0] == "a" and t[1][2] == "append"]
+            rec_n = [(t, g) for t, g in apps if t[2] == (nd,)]
+            rec_v = [(t, g) for t, g in apps if t[2] == (("a", nd, "var"),)]
+            guards_ok = False
+            if len(rec_n) == 1 and len(rec_v) == 1:
+                seen_n, seen_v = rec_n[0][0][1][1], rec_v[0][0][1][1]
+                g_n = [(("cmp", "in", nd, seen_n), False)]
+                g_v = g_n + [(("a", nd, "var"), True),
+                             (("cmp", "in", ("a", nd, "var"), seen_v), False)]
+                ext_in = [[(a, p) for a, p in cond if a[0] != "inloop"]
+                          for t, _, cond in lp["calls"] if t[1][0] == "a"
+                          and t[1][2] == "extend" and t[2] == (want_in,)]
+                ext_var = [[(a, p) for a, p in cond if a[0] != "inloop"]
+                           for t, _, cond in lp["calls"] if t[1][0] == "a"
+                           and t[1][2] == "extend" and t[2] == (want_var,)]
+                rt_ = ra.ret()
+                guards_ok = (rec_n[0][1] == g_n and rec_v[0][1] == g_v and ext_in == [g_n]
+                             and ext_var == [g_v] and rt_ is not None and rt_[0] == "tuple"
+                             and len(rt_[1]) == 2
+                             and rt_[1][0][:2] == ("loop", seen_n[1])
+                             and rt_[1][1][:2] == ("loop", seen_v[1]))
+            ok = ok and guards_ok
             detail = f"inputs pushed={has_in}, variable's nodes pushed={has_var}, " \
-                     f"dedupe={dedupe}"
+                     f"dedupe={dedupe}, guards and result={guards_ok}"
     ctx.ob("C15.R2", anv, "the worklist pushes node.all_input_nodes() and node.var.nodes "
                           "for every popped node and skips nodes already collected", ok,
            detail=detail, stmt="closure worklist " + detail)
@@ -375,9 +400,12 @@ def check(ctx):
     st = [(val, cond) for loc, val, _, cond in rs.stores if loc == ("a", SELF, "_model")]
     upd = [t for t, _, _ in rs.calls if t == ("call", ("a", ("a", SELF, "__dict__"), "update"),
                                               (n(ss.params()[1]),), ())]
+    none_m = ("cmp", "is", ("a", SELF, "_model"), c(None))
     ok = (len(upd) == 1 and len(st) == 2
-          and any(is_call(v, "weakref.ref") for v, _ in st)
-          and any(v[0] == "lambda" and v[2] == c(None) for v, _ in st))
+          and any(v == ("call", ("g", "weakref.ref"), (("a", SELF, "_model"),), ())
+                  and tuple(cd) == ((none_m, False),) for v, cd in st)
+          and any(v[0] == "lambda" and v[2] == c(None) and tuple(cd) == ((none_m, True),)
+                  for v, cd in st))
     ctx.ob("C15.R6", ss, "__setstate__ restores __dict__ and turns the model back into a "
                          "weak reference (or the empty reference)", ok, stmt="setstate")
     sv = repo.func(f"{MODEL}.save_model")
